@@ -291,6 +291,12 @@ pub struct Tweaks {
     /// distribute assets to the outputs as if the minted amounts had the opposite sign
     #[serde(default)]
     pub mint_sign_flip: bool,
+    /// carry the auxiliary data but leave field 7 (its hash) out of the body
+    #[serde(default)]
+    pub aux_hash_omitted: bool,
+    /// announce the hash in the body but carry no auxiliary data (fee and size consistent, unlike stripping it afterwards)
+    #[serde(default)]
+    pub aux_data_omitted: bool,
 }
 
 pub fn forge(spec: &Spec) -> Result<Forged, String> {
@@ -539,7 +545,7 @@ pub fn forge_with(spec: &Spec, tw: &Tweaks) -> Result<Forged, String> {
         if let Some(t) = ttl {
             m.push((3, cx::uint(t)));
         }
-        if let Some(a) = &aux {
+        if let (Some(a), false) = (&aux, tw.aux_hash_omitted) {
             let mut h = b256(a);
             if tw.wrong_aux_hash {
                 h[0] ^= 1;
@@ -600,7 +606,8 @@ pub fn forge_with(spec: &Spec, tw: &Tweaks) -> Result<Forged, String> {
     // size is independent of fee/change values (fixed widths): build once to measure
     let probe_body = cx::write(&build_body(0, 0));
     let probe_wits = cx::write(&build_wits(&probe_body));
-    let aux_len = aux.as_ref().map(|a| a.len() as u64).unwrap_or(1);
+    let carried: Option<&Vec<u8>> = if tw.aux_data_omitted { None } else { aux.as_ref() };
+    let aux_len = carried.map(|a| a.len() as u64).unwrap_or(1);
     let ledger_size = 1 + probe_body.len() as u64 + probe_wits.len() as u64 + aux_len;
     let min_fee = MINFEE_A * ledger_size + MINFEE_B;
     let mut fee = match tw.fee_vs_min {
@@ -626,9 +633,10 @@ pub fn forge_with(spec: &Spec, tw: &Tweaks) -> Result<Forged, String> {
     tx.extend(&body);
     tx.extend(&wits);
     tx.push(0xf5);
-    match &aux {
+    match carried {
         Some(a) => tx.extend(a),
         None => tx.push(0xf6),
     }
+    let aux = carried.cloned();
     Ok(Forged { era, tx, body, wits, aux, utxos, fee, ledger_size, signers, total_mem, total_steps, has_plutus })
 }
